@@ -111,77 +111,44 @@ impl super::MainState {
                         if can_send {
                             use PrivMsgTargetType::*;
                             if !(target_type & ChannelAllSpecial).is_empty() {
-                                // send to special users
+                                // send to special users - once to every user,
+                                // even if he holds many of the addressed statuses
+                                let mut rcpts = HashSet::<&String>::new();
                                 if !(target_type & ChannelFounder).is_empty() {
                                     if let Some(ref founders) = chanobj.modes.founders {
-                                        founders.iter().try_for_each(|u| {
-                                            if u != user_nick {
-                                                state.users.get(u).unwrap().send_msg_display(
-                                                    &conn_state.user_state.source,
-                                                    &msg_str,
-                                                )
-                                            } else {
-                                                Ok(())
-                                            }
-                                        })?;
+                                        rcpts.extend(founders.iter());
                                     }
                                 }
                                 if !(target_type & ChannelProtected).is_empty() {
                                     if let Some(ref protecteds) = chanobj.modes.protecteds {
-                                        protecteds.iter().try_for_each(|u| {
-                                            if u != user_nick {
-                                                state.users.get(u).unwrap().send_msg_display(
-                                                    &conn_state.user_state.source,
-                                                    &msg_str,
-                                                )
-                                            } else {
-                                                Ok(())
-                                            }
-                                        })?;
+                                        rcpts.extend(protecteds.iter());
                                     }
                                 }
                                 if !(target_type & ChannelOper).is_empty() {
                                     if let Some(ref operators) = chanobj.modes.operators {
-                                        operators.iter().try_for_each(|u| {
-                                            if u != user_nick {
-                                                state.users.get(u).unwrap().send_msg_display(
-                                                    &conn_state.user_state.source,
-                                                    &msg_str,
-                                                )
-                                            } else {
-                                                Ok(())
-                                            }
-                                        })?;
+                                        rcpts.extend(operators.iter());
                                     }
                                 }
                                 if !(target_type & ChannelHalfOper).is_empty() {
                                     if let Some(ref half_ops) = chanobj.modes.half_operators {
-                                        half_ops.iter().try_for_each(|u| {
-                                            if u != user_nick {
-                                                state.users.get(u).unwrap().send_msg_display(
-                                                    &conn_state.user_state.source,
-                                                    &msg_str,
-                                                )
-                                            } else {
-                                                Ok(())
-                                            }
-                                        })?;
+                                        rcpts.extend(half_ops.iter());
                                     }
                                 }
                                 if !(target_type & ChannelVoice).is_empty() {
                                     if let Some(ref voices) = chanobj.modes.voices {
-                                        voices.iter().try_for_each(|u| {
-                                            if u != user_nick {
-                                                state.users.get(u).unwrap().send_msg_display(
-                                                    &conn_state.user_state.source,
-                                                    &msg_str,
-                                                )
-                                            } else {
-                                                Ok(())
-                                            }
-                                        })?;
+                                        rcpts.extend(voices.iter());
                                     }
                                 }
+                                rcpts.iter().try_for_each(|u| {
+                                    if *u != user_nick {
+                                        state.users.get(*u).unwrap().send_msg_display(
+                                            &conn_state.user_state.source,
+                                            &msg_str,
+                                        )
+                                    } else {
+                                        Ok(())
+                                    }
+                                })?;
                             } else {
                                 // send to all users
                                 chanobj.users.keys().try_for_each(|u| {
